@@ -9,6 +9,10 @@ NOTE = ("Trusted: the symgo interpreter and its models of reflect, sync, fmt, so
         "must agree; every reported counterexample is replayed natively first.")
 
 CLAIMED = {
+ "C12": "All 11 selected entry points over a set of 3 (thorough 4) rules with symbolic saliences / failing subset / policy and an enumerated family of name lists (sub-lists, permutations, unknown names at every position, all-unknown, empty, wrong length): exactly the named existing rules run, sorted variants by salience, as-given variants in list order, concurrent / mix / inverse / N-M variants as their model prescribes over that set (barriers decided by the schedule SMT), and the call fails without running anything where the statement says so.",
+ "C13": "DAG model over 4 rules and an enumerated family of layerings (<= 3/4 layers, empty layers, unknown names, repeats inside a layer) with symbolic failing subset: per-layer barriers and join are decided over all interleavings by the schedule SMT, occurrences are counted, a failing layer stops the rest and makes the call fail.",
+ "C14": "Stop-tag variants over 1..3 (thorough 4) rules with symbolic tag-setting subset, failing subset, policy and saliences: no rule starts after the first rule that set the tag (mix: nothing after the first rule), and a differential harness proves the tag variants equal to their plain counterparts (trace, error-ness, result map) when the tag is never set.",
+ "C15": "In every engine entry point, twice per engine, a lower-priority rule that only reads a local assigned by another rule fails with not-found and each rule returns its own value; accesses to the per-execution local map are events and the race query shows no map is touched by two goroutines in any schedule.",
  "C05": "Mix, inverse-mix and the three N-M models over 1..3 (thorough 4) rules, every N/M split and the rejected shapes: saliences, failing subset and error policy are symbolic; per control path the logged events (rule start/end, spawn, WaitGroup, mutex) form an event structure and z3 decides over integer time stamps that in no consistent interleaving a stage-two rule starts before a stage-one rule ends, that nothing runs after the call returns, and the exactly-once / window / stop-continue oracle.",
  "C11": "All 21 engine execution entry points (and two DAG shapes) are run twice on one engine with symbolic return/fail flags and values per rule (value return, bare return, failing return expression, fault, none; returns nested in if/for/forRange): the result map must hold exactly the rules that ran in that call and reached a return, with their values; accesses to the result map are events in the join query.",
  "C01": "Every binary operator x every ordered pair of the 14 operand kinds, every operator pair (thorough: triple) with and without parentheses, literals, negation, rule locals and the four metadata constants are compiled by the real front end and evaluated symbolically (Expression/MathExpression/Atom/Constant.Evaluate, core.Add/Sub/Mul/Div) with all operand values symbolic; z3 proves equality with a reference generated from an independent precedence parse, and 'error iff zero divisor / ill-typed, never a value'. Bounded in expression size only.",
